@@ -5,6 +5,7 @@
 mod driver;
 mod report;
 mod rng;
+mod c15;
 mod c19;
 mod c20;
 
@@ -52,6 +53,11 @@ fn main() {
         "C19" => {
             rep = Report::new("C19", &o.tier, o.seed, "operand pairs (a,b) of 16 LE bytes; non-trivial = both operands non-zero; distinct by (stream,a,b)");
             match &replay_lines { Some(l) => c19::replay(&mut drv, &mut rep, l), None => c19::run(&o, &mut drv, &mut rep) }
+        }
+        "C15" | "C16" => {
+            rep = Report::new(&o.prop, &o.tier, o.seed, "histories of relay operations (ask / publish frames on 3 connections, service send, clock advance); non-trivial = at least two relay operations; distinct by the full history");
+            let p = o.prop.clone();
+            match &replay_lines { Some(l) => c15::replay(&mut drv, &mut rep, l, &p), None => c15::run(&o, &mut drv, &mut rep, &p) }
         }
         "C20" => {
             rep = Report::new("C20", &o.tier, o.seed, "square matrices over the secp256k1 scalar field given as (n, n*n entries); each case runs determinant and inverse; non-trivial = n >= 2; distinct by (stream, entries)");
